@@ -497,3 +497,121 @@ srv_harness! {
         kani::cover!(holders == 10 && k >= 7, "more candidates than the limit: capped");
     }
 }
+
+// ---------------------------------------------------------------- native scenario tests (lead)
+// c19_cookies_p2 decides the cookie/placeholder rules under models of the cookie codec, so its
+// counterexamples cannot be replayed through Kani's playback. These ordinary tests drive the REAL
+// server (real key set, real AES-SIV) with concrete NTS requests carrying short placeholders;
+// the driver runs them natively when the harness fails and reports a violation only if they fail.
+#[cfg(test)]
+mod native {
+    use ntp_proto::verif::keyset as kh;
+    use ntp_proto::verif::packet::crypto::{AesSivCmac256, Cipher as _};
+    use ntp_proto::*;
+    use std::net::{IpAddr, Ipv4Addr};
+    use std::sync::{Arc, RwLock};
+
+    #[derive(Clone)]
+    struct Clk;
+    impl NtpClock for Clk {
+        type Error = std::io::Error;
+        fn now(&self) -> Result<NtpTimestamp, Self::Error> {
+            Ok(NtpTimestamp::from_seconds_nanos_since_ntp_era(200, 0))
+        }
+        fn set_frequency(&self, _: f64) -> Result<NtpTimestamp, Self::Error> {
+            unreachable!()
+        }
+        fn get_frequency(&self) -> Result<f64, Self::Error> {
+            Ok(0.0)
+        }
+        fn step_clock(&self, _: NtpDuration) -> Result<NtpTimestamp, Self::Error> {
+            unreachable!()
+        }
+        fn disable_ntp_algorithm(&self) -> Result<(), Self::Error> {
+            unreachable!()
+        }
+        fn error_estimate_update(&self, _: NtpDuration, _: NtpDuration) -> Result<(), Self::Error> {
+            unreachable!()
+        }
+        fn status_update(&self, _: NtpLeapIndicator) -> Result<(), Self::Error> {
+            unreachable!()
+        }
+    }
+    #[derive(Default)]
+    struct Stats(u32);
+    impl ServerStatHandler for Stats {
+        fn register(&mut self, _: u8, _: bool, _: ServerReason, _: ServerResponse) {
+            self.0 += 1;
+        }
+    }
+
+    /// header | uid(32) | cookie | `n` placeholders with `body` bytes each | authenticator (empty plaintext)
+    fn nts_request(keyset: &KeySet, n: usize, body: usize) -> Vec<u8> {
+        let c2s = AesSivCmac256::new([7u8; 32].into());
+        let cookie = kh::keyset_encode_cookie(
+            keyset,
+            &kh::decoded_cookie_from_parts(15, Box::new(AesSivCmac256::new([9u8; 32].into())), Box::new(AesSivCmac256::new([7u8; 32].into()))),
+        );
+        let mut m = vec![0u8; 48];
+        m[0] = 0x23;
+        m[40..48].copy_from_slice(&[1, 2, 3, 4, 5, 6, 7, 8]);
+        m.extend_from_slice(&[0x01, 0x04, 0x00, 36]);
+        m.extend(std::iter::repeat(0xAB).take(32));
+        m.extend_from_slice(&[0x02, 0x04]);
+        m.extend_from_slice(&((4 + cookie.len()) as u16).to_be_bytes());
+        m.extend_from_slice(&cookie);
+        for _ in 0..n {
+            m.extend_from_slice(&[0x03, 0x04]);
+            m.extend_from_slice(&((4 + body) as u16).to_be_bytes());
+            m.extend(std::iter::repeat(0u8).take(body));
+        }
+        let mut ct = vec![0u8; 64];
+        let r = c2s.encrypt(&mut ct, 0, &m).unwrap();
+        let total = 8 + r.nonce_length + r.ciphertext_length;
+        m.extend_from_slice(&[0x04, 0x04]);
+        m.extend_from_slice(&(total as u16).to_be_bytes());
+        m.extend_from_slice(&(r.nonce_length as u16).to_be_bytes());
+        m.extend_from_slice(&(r.ciphertext_length as u16).to_be_bytes());
+        m.extend_from_slice(&ct[..r.nonce_length + r.ciphertext_length]);
+        m
+    }
+
+    fn answer(n: usize, body: usize) -> (usize, Option<(usize, usize)>) {
+        let keyset = KeySetProvider::new(1).get();
+        let msg = nts_request(&keyset, n, body);
+        let config = ServerConfig {
+            denylist: FilterList { filter: vec![], action: FilterAction::Deny },
+            allowlist: FilterList { filter: vec!["0.0.0.0/0".parse().unwrap()], action: FilterAction::Ignore },
+            rate_limiting_cache_size: 0,
+            rate_limiting_cutoff: std::time::Duration::from_secs(1),
+            require_nts: None,
+            accepted_versions: vec![NtpVersion::V4],
+        };
+        let mut server = Server::new_internal(config, Clk, Arc::new(RwLock::new(NtpServerInfo::default())), keyset.clone());
+        let mut out = [0u8; 2048];
+        let mut st = Stats::default();
+        let s2c = AesSivCmac256::new([9u8; 32].into());
+        let r = match server.handle(IpAddr::V4(Ipv4Addr::new(192, 0, 2, 7)), NtpTimestamp::from_seconds_nanos_since_ntp_era(100, 0), &msg, &mut out, &mut st) {
+            ServerAction::Respond { message } => {
+                let (p, _) = NtpPacket::deserialize(message, &s2c).expect("answer authenticates under the s2c key");
+                Some((message.len(), p.new_cookies().count()))
+            }
+            ServerAction::Ignore => None,
+        };
+        (msg.len(), r)
+    }
+
+    #[test]
+    fn native_short_placeholders_get_no_cookie() {
+        for (n, body) in [(3usize, 64usize), (6, 16), (2, 12)] {
+            let (req, ans) = answer(n, body);
+            let (len, cookies) = ans.expect("authentic request is answered");
+            assert!(cookies <= 1, "placeholders shorter than a cookie get no fresh cookie ({n} x {body}: {cookies} cookies)");
+            assert!(len <= req, "the answer ({len}) is not longer than the request ({req})");
+        }
+        // placeholders of cookie size are honoured
+        let (req, ans) = answer(2, 104);
+        let (len, cookies) = ans.expect("authentic request is answered");
+        assert!(cookies >= 2 && cookies <= 3 && len <= req, "cookie-sized placeholders: {cookies} cookies, {len} <= {req}");
+    }
+}
